@@ -16,7 +16,7 @@ PROPERTY = "C01"
 LEVEL = "exploration"
 RULE = (
     "cases = (operator in {laplacian, divergence, vector laplacian, advection, advection through the "
-    "Navier-Stokes residual}, AD mode rev/fwd, spatial dimension 1..4, with/without time argument, analytic field, "
+    "Navier-Stokes residual}, AD mode rev/fwd, spatial dimension 1..4 (random fields, reverse mode: also 5, 6, 7, 9), with/without time argument, analytic field, "
     "evaluation point, unrelated parameter values). Fields: random trig+quadratic+Gaussian family (Hypothesis, "
     "dyadic coefficients) and, exhaustively, every monomial of total degree <=3 in (t,x_1..x_d) placed in every "
     "output component (advection: every ordered pair of monomials of degree <=2). Non-trivial = the true value is "
@@ -249,7 +249,9 @@ def strat_rev():
     def s(draw):
         op = draw(st.sampled_from(["lap", "div", "vlap", "adv", "adv_ns"]))
         time = draw(st.booleans()) if op != "adv_ns" else False
-        d = 2 if op in ("adv", "adv_ns") else draw(st.integers(1, 4))
+        # dimensions 1..4 most of the time, and 5, 6, 7, 9 (beyond / not a multiple of the block sizes 4 and 8 that a
+        # blocked Jacobian or Hessian evaluation would use)
+        d = 2 if op in ("adv", "adv_ns") else draw(st.sampled_from([1, 2, 3, 4, 1, 2, 3, 4, 5, 6, 7, 9]))
         case = {"op": op, "time": time}
         if op == "lap":
             m = draw(st.sampled_from([1, 1, 2]))
@@ -264,8 +266,8 @@ def strat_rev():
             m = 2
         din = d + (1 if time else 0)
         case["field"] = draw(field_specs(din, m, post=draw(st.sampled_from(["id", "id", "exp"])),
-                                         nsin=(1, 2)))
-        if case["field"]["post"] == "exp":
+                                         nsin=(1, 2), quad=d <= 4))
+        if case["field"]["post"] == "exp" and case["field"]["quad"] is not None:
             # keep exp arguments moderate
             for k in range(m):
                 for q in case["field"]["quad"][k]:
